@@ -37,10 +37,10 @@ def batch {File Out : Type} (F : FileRun File Out) : GState → List File → Li
 def singles {File Out : Type} (F : FileRun File Out) (init : GState) (xs : List File) : List Out :=
   xs.map (fun x => (F.run init x).1)
 
-def classOf (tbl : List (String × String)) (l : String) : Option String := (tbl.find? (·.1 = l)).map (·.2)
+def stateClassOf (tbl : List (String × String)) (l : String) : Option String := (tbl.find? (·.1 = l)).map (·.2)
 
 def allClassified (names : List String) (tbl : List (String × String)) : Bool :=
-  names.all (fun n => (classOf tbl n).isSome)
+  names.all (fun n => (stateClassOf tbl n).isSome)
 
 def noneX (tbl : List (String × String)) : Bool := tbl.all (fun p => p.2 ≠ "X")
 
